@@ -336,6 +336,31 @@ def netlist_vs_rtl(nl, rtl, timeout_ms=60000, bmc_k=4):
         res["queries"] += 1
         s_model = s.model() if r == z3.sat else None
         s.pop()
+        if r == z3.unknown:
+            # the disjunction over all outputs timed out: decide the obligations one by one, each with a
+            # bit-blasting retry
+            r = z3.unsat
+            for _, d in diffs:
+                s.push()
+                s.add(d)
+                r1 = s.check()
+                res["queries"] += 1
+                if r1 == z3.unknown:
+                    t = z3.Then("simplify", "solve-eqs", "bit-blast", "sat").solver()
+                    t.set("timeout", timeout_ms)
+                    for a in R["asm"]:
+                        t.add(a)
+                    t.add(d)
+                    r1 = t.check()
+                    res["queries"] += 1
+                    if r1 == z3.sat:
+                        s_model = t.model()
+                elif r1 == z3.sat:
+                    s_model = s.model()
+                s.pop()
+                if r1 != z3.unsat:
+                    r = r1
+                    break
         if r == z3.unsat:
             res.update(verdict="equal_inductive", obligations=len(diffs), secs=time.time() - t0)
             return res
